@@ -1198,10 +1198,13 @@ class FDE:
             return a != b
         if isinstance(op, (ast.In, ast.NotIn)) and isclass(b) and isinstance(a, EnumMember):
             return (a.cls == b[1]) == isinstance(op, ast.In)
-        if isinstance(op, ast.In):
-            return a in b
-        if isinstance(op, ast.NotIn):
-            return a not in b
+        if isinstance(op, (ast.In, ast.NotIn)):
+            if isinstance(b, (Obj, Opaque)):
+                raise Unsupported('membership test in an abstract value')
+            try:
+                return (a in b) == isinstance(op, ast.In)
+            except TypeError:
+                raise Raised('TypeError')       # `x in None`, unhashable key ...
         if a is None or b is None:
             raise Raised('TypeError')
         if isinstance(op, ast.Gt):
